@@ -45,6 +45,13 @@ func call(name string, args ...ast.Expr) ast.Stmt {
 	return &ast.ExprStmt{X: &ast.CallExpr{Fun: ast.NewIdent(name), Args: args}}
 }
 
+func chr(s string) ast.Expr { return &ast.BasicLit{Kind: token.CHAR, Value: s} }
+
+// addrOf: &x for the call x.Lock()
+func addrOf(c ast.Expr) ast.Expr {
+	return &ast.UnaryExpr{Op: token.AND, X: c.(*ast.CallExpr).Fun.(*ast.SelectorExpr).X}
+}
+
 func lit(s string) ast.Expr { return &ast.BasicLit{Kind: token.STRING, Value: fmt.Sprintf("%q", s)} }
 func num(s string) ast.Expr { return &ast.BasicLit{Kind: token.INT, Value: s} }
 
@@ -53,6 +60,8 @@ type rewriter struct {
 	handled map[ast.Expr]bool
 	sites   int
 	vars    map[string]string // identifier -> struct type (receiver, parameters)
+	// statements already given an atomic-operation yield (a block is visited once, but be safe)
+	seenStmt map[ast.Stmt]bool
 }
 
 // structFields: struct type -> field -> type name (pointers and package qualifiers stripped)
@@ -111,9 +120,75 @@ func (r *rewriter) lockName(c ast.Expr) string {
 	return r.fn + ":" + exprString(x)
 }
 
+// atomicOp: the node contains a call x.f.Load() / Store / Swap / CompareAndSwap / Add on a struct
+// field (function literals are not entered).
+func atomicOp(n ast.Node) bool {
+	if n == nil {
+		return false
+	}
+	found := false
+	ast.Inspect(n, func(m ast.Node) bool {
+		if found {
+			return false
+		}
+		if _, ok := m.(*ast.FuncLit); ok {
+			return false
+		}
+		c, ok := m.(*ast.CallExpr)
+		if !ok {
+			return true
+		}
+		sel, ok := c.Fun.(*ast.SelectorExpr)
+		if !ok {
+			return true
+		}
+		switch sel.Sel.Name {
+		case "Load", "Store", "Swap", "CompareAndSwap", "Add":
+			if _, ok := sel.X.(*ast.SelectorExpr); ok {
+				found = true
+			}
+		}
+		return true
+	})
+	return found
+}
+
+// atomicStmt: the statement itself (not the blocks nested in it) performs an atomic operation.
+func atomicStmt(st ast.Stmt) bool {
+	switch s := st.(type) {
+	case *ast.ExprStmt:
+		return atomicOp(s.X)
+	case *ast.AssignStmt:
+		for _, e := range s.Rhs {
+			if atomicOp(e) {
+				return true
+			}
+		}
+	case *ast.ReturnStmt:
+		for _, e := range s.Results {
+			if atomicOp(e) {
+				return true
+			}
+		}
+	case *ast.IfStmt:
+		return atomicOp(s.Init) || atomicOp(s.Cond)
+	case *ast.SwitchStmt:
+		return atomicOp(s.Init) || atomicOp(s.Tag)
+	}
+	return false
+}
+
 func (r *rewriter) stmts(list []ast.Stmt) []ast.Stmt {
 	var out []ast.Stmt
 	for _, st := range list {
+		if !r.seenStmt[st] && atomicStmt(st) {
+			// a preemption point in front of every statement that reads or writes an atomic field:
+			// lock-free readers see the intermediate states of a critical section (only used by plans
+			// that park goroutines inside critical sections)
+			r.seenStmt[st] = true
+			r.sites++
+			out = append(out, call("verifPreLock", lit(r.fn+"@a")))
+		}
 		switch s := st.(type) {
 		case *ast.ExprStmt:
 			if name, c := lockCall(s.X); c != nil && !r.handled[c] {
@@ -126,10 +201,17 @@ func (r *rewriter) stmts(list []ast.Stmt) []ast.Stmt {
 					if name == "RLock" {
 						tag = "@R:"
 					}
-					out = append(out, call("verifPreLock", lit(tag+ln)), call("verifPreLock", lit(r.fn)), st, call("verifHeld", num("1")))
+					// (the lock's identity: 'l'/'r' = about to acquire - the simulator may hold the goroutine
+					// back here while a goroutine it parked inside a critical section owns the mutex -,
+					// 'L'/'R' = acquired, 'U' = released)
+					pre, post := "'l'", "'L'"
+					if name == "RLock" {
+						pre, post = "'r'", "'R'"
+					}
+					out = append(out, call("verifPreLock", lit(tag+ln)), call("verifPreLock", lit(r.fn)), call("verifLockObj", chr(pre), addrOf(c)), st, call("verifHeld", num("1")), call("verifLockObj", chr(post), addrOf(c)))
 				default:
 					// and a yield right after the release: the moment a waiter gets in
-					out = append(out, call("verifPreLock", lit("@U:"+ln)), call("verifHeld", &ast.UnaryExpr{Op: token.SUB, X: num("1")}), st, call("verifPreLock", lit(r.fn+":unlocked")))
+					out = append(out, call("verifPreLock", lit("@U:"+ln)), call("verifHeld", &ast.UnaryExpr{Op: token.SUB, X: num("1")}), st, call("verifLockObj", chr("'U'"), addrOf(c)), call("verifPreLock", lit(r.fn+":unlocked")))
 				}
 				continue
 			}
@@ -140,6 +222,7 @@ func (r *rewriter) stmts(list []ast.Stmt) []ast.Stmt {
 				fl := &ast.FuncLit{Type: &ast.FuncType{Params: &ast.FieldList{}}, Body: &ast.BlockStmt{List: []ast.Stmt{
 					call("verifPreLock", lit("@U:"+r.lockName(c))),
 					call("verifHeld", &ast.UnaryExpr{Op: token.SUB, X: num("1")}), &ast.ExprStmt{X: c},
+					call("verifLockObj", chr("'U'"), addrOf(c)),
 					// the function is about to return to its caller with the lock released
 					call("verifPreLock", lit(r.fn+":unlocked"))}}}
 				out = append(out, &ast.DeferStmt{Call: &ast.CallExpr{Fun: fl}})
@@ -193,7 +276,7 @@ func main() {
 			fmt.Fprintf(os.Stderr, "instr: %v\n", err)
 			os.Exit(2)
 		}
-		r := &rewriter{handled: map[ast.Expr]bool{}}
+		r := &rewriter{handled: map[ast.Expr]bool{}, seenStmt: map[ast.Stmt]bool{}}
 		for _, d := range f.Decls {
 			fd, ok := d.(*ast.FuncDecl)
 			if !ok || fd.Body == nil {
